@@ -51,6 +51,8 @@ def check_other_writes(ck, tm, label, v, rule="R17.2"):
             addr = ev.args[0]
         later = [e for e in v.trace[ev.idx + 1:] if e.kind == "ffi" and e.name == FLUSH[tm.os]]
         one = int_const(1, tm.ptr_bits)
+        if ev.name.endswith("write_bytes") and len(ev.args) >= 3 and isinstance(ev.args[2], Int):
+            one = ev.args[2]          # write_bytes(dst, val, count) fills at least `count` bytes (count elements): all of them need the flush
         cov = [e for e in later if addr is not None and covers(tm, e, addr, addr, one)]
         ck.ob(rule, "%s/raw-write-after-last-flush/%s" % (tm.os, short(ev.name)), tm.target, bool(cov),
               "%s: %s at %s is %s by a flush covering it (%d later flush call(s))" % (
